@@ -30,6 +30,7 @@ class World:
         self.faults = set(faults)
         self.fault_cls = fault_cls
         self.snap_ids = []          # per probe call: (identities of the frames bottom..top, level)
+        self.max_level = 0          # deepest template nesting reached
 
 
 class Fn:
@@ -547,9 +548,19 @@ def run_impl(case, faults=(), fault_cls='ValueError', guard=None):
         # let the template engine's own recursion guard (level > 200) fire, as under Zope
         sys.setrecursionlimit(20000)
     world = World(faults, CLASSES[fault_cls][0])
-    cls = HTML
+    base = HTML
     if guard is not None:
-        cls = guard(world)
+        base = guard(world)
+
+    class cls(base):
+        """records how deep templates nest: beyond a few dozen levels the outcome depends on the interpreter's C stack
+        (CPython raises RecursionError long before the engine's own level > 200 guard), which no model can exhibit"""
+
+        def __call__(self, client=None, mapping=None, **kw):
+            lv = getattr(mapping, 'level', 0) if mapping is not None else 0
+            if isinstance(lv, int) and lv > world.max_level:
+                world.max_level = lv
+            return base.__call__(self, client, mapping, **kw)
     templates = []
     enc = case.get('encoding')
     for t in case['templates']:
@@ -579,7 +590,8 @@ def run_impl(case, faults=(), fault_cls='ValueError', guard=None):
         res = {'raise': 'RecursionError', 'msg': ''}
     except Exception as e:  # noqa
         res = {'raise': type(e).__name__, 'msg': exc_msg(e)}
-    return {'result': res, 'events': world.events, 'calls': world.calls, 'snap_ids': world.snap_ids}
+    return {'result': res, 'events': world.events, 'calls': world.calls, 'snap_ids': world.snap_ids,
+            'max_level': world.max_level}
 
 
 def exc_msg(e):
